@@ -294,3 +294,7 @@ def run(ctx, rep):
     for o in r3.obligations:
         if o["instance"].startswith("pool handler") or "writes-only-quantity" in o["instance"]:
             rep.ob("R5", o["instance"], o["ok"], o["detail"], o["site"], key="R5:" + o["instance"])
+    # the holding stays exact only if nothing of ANOTHER security reaches the 30-day arithmetic: candidate buys and ratio updates
+    # of the look-ahead sit under the ticker guard (shared with C02-R6 / C09-R2); a SPLIT of another security inside the window
+    # otherwise rescales the claim, the pool drifts and a covered sale is refused or an uncovered one accepted (seeded change C05-s8)
+    c02.same_security(R, rep, "R6")
